@@ -152,6 +152,13 @@ class Probe:
                 has = self.events_in(st) or self.sets_reg(st)
                 if not has:
                     continue
+                if test not in CONDS and isinstance(st.test, pyast.BoolOp) and isinstance(st.test.op, pyast.Or):
+                    # "refresh last_hit": any disjunction of these (a further disjunct only refreshes more often,
+                    # which the model covers through always_update_last_hit / the stale register)
+                    ds = {pyast.unparse(v) for v in st.test.values}
+                    if ds <= {"always_update_last_hit", "not isinstance(last_hit, int)", "last_hit < yesterday"} \
+                            and "last_hit < yesterday" in ds:
+                        test = "always_update_last_hit or last_hit < yesterday"
                 if test not in CONDS:
                     raise ProbeError("unknown branch condition around cache statements: %s" % test[:80])
                 c, pol = CONDS[test]
